@@ -23,5 +23,7 @@ verus! {
 //@include ghost_pass_bfs.rs
 //@include ghost_lm_dead.rs
 //@include ghost_lm_opt.rs
+//@include ghost_lf.rs
+//@include ghost_c04.rs
 } // verus!
 fn main() {}
